@@ -311,6 +311,10 @@ def ensure_cli_recorder():
     @register_scheduler_init(key="verifrec")
     def rinit(s):
         s.vt = -1
+        if _cli_rec.get("sims") is not None:
+            # one list per simulation, with the tick rate it was configured with
+            _cli_rec["arr"] = []
+            _cli_rec["sims"].append((s.params.get("ticks_per_second"), _cli_rec["arr"]))
 
     @register_scheduler(key="verifrec")
     def rstep(s, results, pipelines):
@@ -319,6 +323,104 @@ def ensure_cli_recorder():
             for p in pipelines:
                 _cli_rec["arr"].append((s.vt, p.priority.name, len(p.values)))
         return [], []
+
+
+def run_sens(scn):
+    """`tools sensitivity` replays one trace nine-fold (snapped, jittered, unchanged; at every power of ten up to the
+    configured tick rate).  Every one of those replays is a trace replay: each pipeline once, in the first tick at or
+    after its (snapped / jittered) arrival at THAT replay's tick rate."""
+    import_repo()
+    import contextlib
+    import os
+    import shutil
+    import tempfile
+    from eudoxia.tools import sensitivity_command
+    ensure_cli_recorder()
+    out = {"violation": None, "discard": None, "faults": {}, "probes": {}, "ticks": 0, "nontrivial": True}
+    ctps = scn["tps"]
+    arrivals = scn["arrivals"]
+    d = tempfile.mkdtemp(prefix="verif_c13s_")
+    try:
+        pf, tf, od = os.path.join(d, "params.toml"), os.path.join(d, "trace.csv"), os.path.join(d, "out")
+        with open(pf, "w") as f:
+            f.write('scheduler_algo = "verifrec"\nticks_per_second = %d\nduration = %r\nnum_pools = 1\n' % (ctps, scn["duration"]))
+        rows = []
+        for j, a in enumerate(arrivals):
+            rows += simple_rows("p%d" % (j + 1), a, 1, PRIOS[j % 3])
+        with open(tf, "w") as f:
+            f.write(rows_to_text(rows))
+        sink = io.StringIO()
+        _cli_rec["sims"] = sims = []
+        try:
+            with contextlib.redirect_stdout(sink), contextlib.redirect_stderr(sink):
+                sensitivity_command(pf, tf, od, jitter_seed=scn.get("jitter_seed"))
+        except (Exception, SystemExit) as e:  # noqa: BLE001
+            raise Violation("C13.raises", {"exc": repr(e)[:200], "tps": ctps, "where": "tools sensitivity"})
+        finally:
+            _cli_rec["sims"] = None
+            _cli_rec["arr"] = None
+        rates = []
+        pw = 1
+        while pw <= ctps:
+            rates.append(pw)
+            pw *= 10
+        want = [(m, t) for t in rates for m in ("snap", "jitter", "tick")]
+        if [t for _, t in want] != [t for t, _ in sims]:
+            raise Violation("C13.sens.simulations", {"expected": [t for _, t in want], "ran_at": [t for t, _ in sims]})
+        for (mut, tps), (_, arr) in zip(want, sims):
+            nticks = int(scn["duration"] * tps)
+            out["ticks"] += nticks
+            got = {}
+            for (t, prio, nops) in arr:
+                got.setdefault(prio, []).append(t)
+            seen = sorted(t for ts in got.values() for t in ts)
+            inside = 0
+            for j, a in enumerate(arrivals):
+                x = frac(a) * tps
+                if mut == "tick":
+                    acc, _ = expected_tick(a, tps)
+                    lo, hi = min(acc), max(acc) + 1          # (+1: known finding D9 on grid points)
+                elif mut == "snap":
+                    k = x.numerator // x.denominator
+                    lo, hi = (k - 1 if near(x, round(x)) else k), k + 1
+                else:
+                    lo, hi = math.ceil(x) - (1 if near(x, round(x)) else 0), math.ceil(x + 1) + 1
+                if lo >= nticks:
+                    continue
+                if hi >= nticks:
+                    # may fall beyond the end of this replay: delivery is optional
+                    hit = next((t for t in seen if lo <= t <= hi), None)
+                    if hit is not None:
+                        seen.remove(hit)
+                    continue
+                inside += 1
+                if not any(lo <= t <= hi for t in seen):
+                    raise Violation("C13.sens.tick", {"replay": mut, "replay_ticks_per_second": tps, "configured": ctps, "arrival": a,
+                                                      "expected_between": [int(lo), int(hi)],
+                                                      "delivered_ticks": seen[:12]})
+                seen.remove(next(t for t in seen if lo <= t <= hi))
+            if seen:
+                # something was delivered in a tick no arrival accounts for (early, late or twice)
+                raise Violation("C13.sens.tick", {"replay": mut, "replay_ticks_per_second": tps, "configured": ctps,
+                                                  "unaccounted_delivery_ticks": seen[:12], "arrivals": arrivals[:12]})
+        out["probes"] = {"sensitivity_replays": len(sims)}
+    except Violation as v:
+        out["violation"] = v.to_json()
+    finally:
+        shutil.rmtree(d, ignore_errors=True)
+    out["sim_s"] = scn["duration"] * 9
+    out["sig"] = digest(["sens", ctps, arrivals])
+    return out
+
+
+def gen_sens(r):
+    ctps = r.choice([1, 10, 10, 100, 100, 1000])
+    n = r.randint(1, 12)
+    dur_ticks = r.randint(30, 200)
+    duration = float(F(dur_ticks, min(ctps, 100)))
+    arrivals = sorted(fstr(F(r.randint(0, int(duration * 1000)), 1000) + F(r.choice([0, 137, 500, 871]), 10 ** 6)) for _ in range(n))
+    arrivals = sorted(arrivals, key=frac)
+    return {"kind": "sens", "tps": ctps, "duration": duration, "arrivals": arrivals, "jitter_seed": r.choice([None, 3, 42])}
 
 
 def run_cli_roundtrip(scn):
@@ -418,8 +520,11 @@ def gen_pipes14(r):
     for k in range(r.randint(1, 12)):
         if k and r.random() < 0.6:
             t += r.randint(0, 30)
-        n = r.randint(1, 6)
+        n = r.randint(1, 6) if r.random() < 0.85 else r.randint(10, 14)      # op10.. sort before op2 as strings
         par = dag_parents(r, n, r.choice(["chain", "fanout", "fanin", "diamond", "multiroot", "random"]))
+        if r.random() < 0.4:
+            for pl_ in par:
+                r.shuffle(pl_)          # parents are declared in any order; the order is part of the row
         ops = []
         for i in range(n):
             mem = r.choice([None, None, "0", "0.0", r.choice(NUMS)])
